@@ -199,33 +199,58 @@ func c06StepState(b uint8, L uint8, I uint64, a chainhash.Hash) *RevocationStore
 	return st
 }
 
+// c06QuickHeights are the tree heights (numbers of trailing zeros) sampled by
+// the quick tier; the thorough tier takes every height.
+var c06QuickHeights = [...]uint8{0, 1, 2, 7, 23, 47, 48}
+
+// c06Height picks a height in [lo, hi]. `deep` (0 quick, 1 thorough) is pinned
+// by spec.json; the height choice is pinned per shard or explored in-process.
+func c06Height(name string, deep int, lo, hi uint8) uint8 {
+	var h uint8
+	if deep == 0 {
+		h = c06QuickHeights[vChoice(name+"q", len(c06QuickHeights))]
+	} else {
+		h = uint8(vChoice(name, 49))
+	}
+	if h < lo || h > hi {
+		vAssume(false)
+	}
+	return h
+}
+
 // c06StepDomain draws (b, L, I) with ctz(I) = b stated in plain bit arithmetic
 // and L = bitlen(received). `deep` is pinned by the tier (spec.json shards).
 func c06StepDomain() (b uint8, L uint8, I uint64) {
 	deep := vChoice("deep", 2)
-	b = uint8(vChoice("b", 48))
+	b = c06Height("b", deep, 0, 47)
+	// number of stored values before the step: b (first index with b trailing
+	// zeros: bucket b is new), b+2, b+3 (b+1 is impossible: the second index
+	// with b trailing zeros arrives after 3*2^b - 1 secrets), half way, 47, 48
 	var m int
 	if deep == 0 {
-		m = vChoice("Lq", 3)
+		m = [...]int{0, 2, 5}[vChoice("Lq", 3)]
 	} else {
-		m = vChoice("Lt", 48)
+		m = vChoice("Lt", 6)
 	}
-	// m = 0: first index with b trailing zeros (bucket b is new); m = 1: all 48
-	// buckets in use; m >= 2: lenBuckets = b + m (b+1 is impossible: the second
-	// index with b trailing zeros arrives after 3*2^b - 1 secrets)
 	switch m {
 	case 0:
 		L = b
 	case 1:
-		L = 48
+		L = b + 3
+	case 2:
+		L = b + 2
+	case 3:
+		L = (b + 48) / 2
+	case 4:
+		L = 47
 	default:
-		L = b + uint8(m)
-		if L >= 48 {
-			vAssume(false)
-		}
+		L = 48
 	}
-	I = c06Index48(vU64("Ihi"), b) // any 48-bit index with exactly b trailing zeros
-	vAssume(c06BitLenSym(c06Top-I) == L)               // L values stored after 2^48-1-I secrets
+	if L > 48 || (m != 5 && L == 48) || (m == 3 && L <= b+3) || (m == 4 && L <= (b+48)/2) {
+		vAssume(false) // out of range or already covered by another case
+	}
+	I = c06Index48(vU64("Ihi"), b)       // any 48-bit index with exactly b trailing zeros
+	vAssume(c06BitLenSym(c06Top-I) == L) // L values stored after 2^48-1-I secrets
 	return b, L, I
 }
 
@@ -400,7 +425,7 @@ func c06Window(z uint8, deep int) uint64 {
 func VerifC06LookupSubtree() {
 	vUnwind(4096)
 	deep := vChoice("deep", 2)
-	b := uint8(vChoice("b", 48))
+	b := c06Height("b", deep, 1, 47)
 	I := c06Index48(vU64("Ihi"), b)
 	a := c06Hash("a")
 	// the state asserted by VerifC06Step after storing (I, a); buckets above b
@@ -481,7 +506,7 @@ func VerifC06Derive() {
 		return
 	}
 	deep := vChoice("deep", 2)
-	z := uint8(vChoice("z", 49))
+	z := c06Height("z", deep, 0, 48)
 	var from uint64
 	if z < 48 {
 		from = c06WithCtz(vU64("fromHi"), z) // any 64-bit index with z trailing zeros
